@@ -244,20 +244,20 @@ impl<W: WorldSpec> Engine<W> {
             bits,
             arch_byte: any.archetype_id(),
             forged: false,
-            natives: vec![Native { world, removals: 0, creations: 0 }],
+            natives: vec![Native { world, removals: 0, creations: 0, ver: 0 }],
             target: bits,
             step,
         })
     }
 
-    pub fn add_dir(&mut self, d: EntityDirectAny, target: Bits, world: usize, removals: u64, creations: u64) -> usize {
+    pub fn add_dir(&mut self, d: EntityDirectAny, target: Bits, world: usize, removals: u64, creations: u64, ver: u64) -> usize {
         let step = self.step;
         self.add_entry(HEntry {
             kind: HKind::Dir(d),
             bits: dbits(d),
             arch_byte: d.archetype_id(),
             forged: false,
-            natives: vec![Native { world, removals, creations }],
+            natives: vec![Native { world, removals, creations, ver }],
             target,
             step,
         })
@@ -341,6 +341,15 @@ impl<W: WorldSpec> Engine<W> {
                 if let (Some(n), false) = (native, e.forged) {
                     let am = &self.ms[wid].archs[ta];
                     if am.removals != n.removals {
+                        if self.cfg.wrapping && am.ver == n.ver {
+                            // wrapping_version: the archetype version came round to the value this
+                            // ancient handle carries; it may match again (documented), by bits
+                            let map = self.direct_map(wid, ta);
+                            return match map.get(&dbits(d)) {
+                                Some(t) => Exp { acc: Tri::Maybe, target: Some(*t), panic_ok: true, cross_typed },
+                                None => Exp { acc: Tri::No, target: None, panic_ok: true, cross_typed },
+                            };
+                        }
                         Exp { acc: Tri::No, target: None, panic_ok, cross_typed }
                     } else if am.creations == n.creations {
                         Exp { acc: Tri::Yes, target: Some(e.target), panic_ok, cross_typed }
